@@ -27,6 +27,10 @@ class PolyplyParser(ITPDirector):
     def __init__(self, force_field):
         super().__init__(force_field)
         self.citations = set()
+        # blocks and links that are already in the force field (read from
+        # other files) are not touched when this file is finalized
+        self._known_blocks = {id(block) for block in force_field.blocks.values()}
+        self._known_links = {id(link) for link in force_field.links}
 
     @SectionLineParser.section_parser('moleculetype', 'citation')
     def _parse_citation(self, line, lineno=0):
@@ -67,6 +71,8 @@ class PolyplyParser(ITPDirector):
         :class:`vermouth.molecule.Link` that are applied to the same atoms.
         """
         for link in self.force_field.links:
+            if id(link) in self._known_links:
+                continue
             for key in link.interactions:
                 terms = link.interactions[key]
                 count_terms = Counter(tuple(term.atoms) for term in terms)
@@ -140,11 +146,15 @@ class PolyplyParser(ITPDirector):
 
     def _make_edges(self):
        for block in self.force_field.blocks.values():
+           if id(block) in self._known_blocks:
+               continue
            inter_types = list(block.interactions.keys())
            for inter_type in inter_types:
                block.make_edges_from_interaction_type(type_=inter_type)
 
        for link in self.force_field.links:
+           if id(link) in self._known_links:
+               continue
            inter_types = list(link.interactions.keys())
            for inter_type in inter_types:
                link.make_edges_from_interaction_type(type_=inter_type)
@@ -166,6 +176,8 @@ class PolyplyParser(ITPDirector):
         self.section = None
 
         for block in self.force_field.blocks.values():
+            if id(block) in self._known_blocks:
+                continue
             block.citations.update(self.citations)
             if len(block.nodes) > 0:
                 n_atoms = len(block.nodes)
